@@ -60,15 +60,17 @@ def findlabels(code, opc):
         if arg is not None:
             arg2 = arg * 2 if opc.version_tuple >= (3, 10) else arg
             if op in opc.JREL_OPS:
-                if opc.version_tuple >= (3, 11) and opc.opname[op] in ("JUMP_BACKWARD", "JUMP_BACKWARD_NO_INTERRUPT"):
-                    arg = -arg
+                if opc.version_tuple >= (3, 11) and "JUMP_BACKWARD" in opc.opname[op]:
+                    arg2 = -arg2
                 jump_offset = offset + 2 + arg2
                 if opc.version_tuple >= (3,13):
                     jump_offset += 2 * _get_cache_size_313(opc.opname[op])
+                elif opc.version_tuple >= (3, 12) and opc.opname[op] in ("FOR_ITER", "SEND"):
+                    # the only relative jumps of 3.12 with an inline cache entry
+                    jump_offset += 2
             elif op in opc.JABS_OPS:
                 jump_offset = arg2
             else:
-                print("XXX", offset, op)
                 continue
             if jump_offset not in offsets:
                 offsets.append(jump_offset)
